@@ -171,14 +171,21 @@ class Worker:
 class Pool:
     """n workers per version; map tasks over them in parallel."""
 
-    def __init__(self, versions, per_version: int | None = None, extra_env=None):
+    def __init__(self, versions, per_version: int | None = None, extra_env=None, hashseeds=False):
+        """hashseeds: worker k of every version runs with PYTHONHASHSEED=k (default: all with 0)"""
         self.versions = list(versions)
         if per_version is None:
             per_version = max(1, NCPU // max(1, len(self.versions)))
         self.workers: dict[str, list[Worker]] = {}
+
+        def env_of(k):
+            if not hashseeds:
+                return extra_env
+            return dict(extra_env or {}, PYTHONHASHSEED=str(k))
+
         with ThreadPoolExecutor(max_workers=32) as ex:
             futs = {
-                v: [ex.submit(Worker, v, extra_env) for _ in range(per_version)]
+                v: [ex.submit(Worker, v, env_of(k)) for k in range(per_version)]
                 for v in self.versions
             }
             for v, fs in futs.items():
